@@ -1601,6 +1601,19 @@ class Entity(Instance):
     def name(self):
         return self._name
 
+    def declared_name(self):
+        # the name assigned by the enclosing scope (the one the architecture uses)
+        if self._extern or not self._scope._parent._setup_complete:
+            return self._name
+        return VhdlScope.lookup_name(self._scope._parent, self)
+
+    def port_name(self, port):
+        # ports are declared in the entity scope; VhdlScope.lookup_name
+        # bypasses the buffer aliases of the architecture scope
+        if self._extern or not self._scope._parent._setup_complete:
+            return port.name()
+        return VhdlScope.lookup_name(self._scope._parent, port)
+
     def path(self):
         return self._path
 
@@ -1624,7 +1637,8 @@ class Entity(Instance):
     def _port_declarations(self) -> list[str]:
         ret = []
 
-        for name, port in self._ports.items():
+        for port in self._ports.values():
+            name = self.port_name(port)
             direction = port.direction()
             obj = port.get()
 
@@ -1675,9 +1689,9 @@ class Entity(Instance):
     def _entity_declaration(self) -> TextBlock:
         return TextBlock(
             [
-                f"entity {self._name} is",
+                f"entity {self.declared_name()} is",
                 IndentBlock(self._port_map()),
-                f"end {self._name};",
+                f"end {self.declared_name()};",
             ]
         )
 
@@ -1934,13 +1948,15 @@ class EntityInst(Instance):
         for port_name, port in self._entity.ports().items():
             actual = self._ports[port_name]
 
+            formal_name = self._entity.port_name(port)
+
             if port.direction().is_input():
                 # typed views (.unsigned/.signed/.bitvector) of the actual need
                 # a type conversion to match the type of the formal
-                port_map.append((port_name, self._scope.format_value(actual)))
+                port_map.append((formal_name, self._scope.format_value(actual)))
                 continue
 
-            formal = port_name
+            formal = formal_name
             root_type = actual._root.type
 
             if issubclass(root_type, Array):
@@ -1953,7 +1969,7 @@ class EntityInst(Instance):
                 and vector_kind(root_type) != vector_kind(port.type)
             ):
                 # output ports are converted on the formal side
-                formal = f"{vector_kind(root_type)}({port_name})"
+                formal = f"{vector_kind(root_type)}({formal_name})"
 
             port_map.append((formal, self._scope.format_target(actual)))
 
@@ -1976,8 +1992,11 @@ class EntityInst(Instance):
                 (port_name, self._scope.format_value(self._ports[port_name]))
             )
 
-        entity_name = self._entity._name
+        entity_name = self._entity.declared_name()
         arch_name = self._entity._arch_name
+
+        if arch_name is not None and not self._entity.extern():
+            arch_name = self._entity.architecture().arch_name()
         arch_spec = "" if arch_name is None else f"({arch_name})"
         path = self._entity._path
 
@@ -2008,6 +2027,15 @@ class Library(Instance):
             entities.add(parent_entity)
 
         collect_subenties(top_entity)
+
+        unit_names = set()
+
+        for entity in entities:
+            unit_name = entity.name().lower()
+            assert (
+                unit_name not in unit_names
+            ), f"two different entities are named '{entity.name()}' (VHDL names are not case sensitive)"
+            unit_names.add(unit_name)
 
         return Library(
             top_entity,
